@@ -461,11 +461,12 @@ Proof. exact rewritten_real. Qed.
    Reads bs d : a declarative, parser-independent reading of the arxml subset of XML - bs is the rendering of the plain XML
    tree d (elements with attributes and layout, character data runs, comments, processing instructions; prolog with the
    XML declaration; misc after the root) and every node is lexically well formed; no lexer state, no fuel, no tables.
-   The grammar is XML's, with eight RELAXATIONS that the loader forces on any sound reading (each is accepted by strict
-   loading, on the model - C01_reading_relaxations - and on the implementation - findings/C08-wellformedness-leniencies.cases.txt):
+   The grammar is XML's, with seven RELAXATIONS that the loader forces on any sound reading (each is accepted by strict
+   loading, on the model - C01_reading_relaxations7 - and on the implementation - findings/C08-wellformedness-leniencies.cases.txt):
    R1 "--" inside comments, R2 any PI body without '>', R3 '<' inside attribute values, R4 repeated attribute names,
    R5 misc before the XML declaration, R6 the declaration is read by position only, R7 any byte but '<' is character
-   data, R8 a dangling attribute (name, '=', quote, blanks) at the end of a tag is ignored.
+   data.  (An eighth, a dangling attribute - name, '=', quote, blanks - at the end of a tag being ignored, was a defect of
+   parse_attribute_text and is repaired: C01_dangling_attribute_rejected.)
    InterpDoc d ver t : the AUTOSAR interpretation of d - types resolved top-down through the tables, values per
    CharacterDataSpec (ValueOf: Pattern values are deliberately NOT entity-decoded - the recorded class - and blanks at
    both ends are dropped except for preserve_whitespace strings), blank runs and PIs dropped, a comment attached to the
@@ -511,11 +512,16 @@ Proof. exact faithful_rich. Qed.
 Theorem C01_reads_example : Reads doc_ok d_ok.
 Proof. exact reads_doc_ok. Qed.
 
-(* [F] the relaxations R1..R8: each document is accepted by STRICT loading *)
-Theorem C01_reading_relaxations :
-  map (fun d => is_ret (LOAD true d)) [doc_R1; doc_R2; doc_R3; doc_R4; doc_R5; doc_R6; doc_R7; doc_R8] =
-  [true; true; true; true; true; true; true; true].
+(* [F] the relaxations R1..R7: each document is accepted by STRICT loading *)
+Theorem C01_reading_relaxations7 :
+  map (fun d => is_ret (LOAD true d)) [doc_R1; doc_R2; doc_R3; doc_R4; doc_R5; doc_R6; doc_R7] =
+  [true; true; true; true; true; true; true].
 Proof. exact relaxations_accepted. Qed.
+
+(* [F] the former relaxation R8, a dangling attribute at the end of a tag, is rejected since the fix of that defect *)
+Theorem C01_dangling_attribute_rejected :
+  strict_kind doc_R8 = Some AttributeValueError /\ lenient_kinds doc_R8 = Some [AttributeValueError].
+Proof. exact dangling_attribute_rejected. Qed.
 
 (* [U] the reading is unique (Xml/ReadingUnique.v): on well-formed trees the rendering is injective - unique readability of
    the grammar, relaxations included - so the existential of C01_faithful determines the document; no hypothesis *)
